@@ -74,7 +74,18 @@ struct Gen {
     int64_t sl = slot(); std::string pth = path();
     auto op1 = [&](const char* k) -> Op& { Op& o = add(k); o.a.push_back(sl); o.s.push_back(pth); return o; };
     auto addm = [&](int n) { for (int i = 0; i < n; i++) { Op& o = op1("AddMember"); o.a.push_back((int64_t)r.below(2)); o.s.push_back(model::gen_key(r, go)); o.s.push_back(scalar()); } };
-    switch (r.below(9)) {
+    switch (r.below(10)) {
+      case 9: {   // a long array of plain scalars that ends in a few values owning memory, then deep-copied (bulk-copy fast paths)
+        JVal v = JVal::arr();
+        size_t n = (size_t)r.range(28, 80);
+        for (size_t i = 0; i < n; i++) v.a.push_back(i % 7 == 3 ? JVal::boolean(i & 1) : i % 7 == 5 ? JVal::null() : (i % 2 ? JVal::uint(i * 11) : JVal::real((double)i / 4)));
+        size_t tail = (size_t)r.range(0, 3);
+        for (size_t i = 0; i < tail; i++) { JVal x; switch (r.below(3)) { case 0: x = JVal::str("tail" + std::to_string(i)); break; case 1: x = JVal::arr(); x.a.push_back(JVal::str("in")); break; default: x = JVal::obj(); x.o.emplace_back("k", JVal::uint(i)); } v.a.push_back(x); }
+        if (r.chance(1, 3)) { JVal w = JVal::obj(); w.o.emplace_back("arr", std::move(v)); v = std::move(w); }
+        Op& b = op1("Build"); b.a.push_back((int64_t)r.below(3)); b.s.push_back(model::canon(v));
+        Op& c = add("CopyFrom"); c.a = {slot(), sl, (int64_t)r.below(2)}; c.s = {path(), pth};
+        break;
+      }
       case 8: {   // an object whose keys mix scripts, lengths and shared prefixes (the lookup map orders them): long UTF-8, long ASCII, short,
                   // keys equal up to an embedded NUL, keys that are prefixes of each other
         op1("SetObject");
